@@ -19,17 +19,30 @@ func genNarrowFacts() {
 		s, ok := e.(*ast.SelectorExpr)
 		return ok && (s.Sel.Name == "originalTs" || s.Sel.Name == "narrowTs" || s.Sel.Name == "ifNarrowTs")
 	}
+	// which local variable holds which state map (`outerNarrowTs := i.narrowTs`), and that each map gets ITS OWN saved value back
+	savedIn := map[string]string{}
 	for _, st := range ev.Body.List {
 		switch x := st.(type) {
 		case *ast.AssignStmt:
-			if len(x.Rhs) == 3 && isStateSel(x.Rhs[0]) && isStateSel(x.Rhs[1]) && isStateSel(x.Rhs[2]) {
+			if len(x.Rhs) == 3 && len(x.Lhs) == 3 && isStateSel(x.Rhs[0]) && isStateSel(x.Rhs[1]) && isStateSel(x.Rhs[2]) {
 				saves = true
+				for k := 0; k < 3; k++ {
+					if id, ok := x.Lhs[k].(*ast.Ident); ok {
+						savedIn[x.Rhs[k].(*ast.SelectorExpr).Sel.Name] = id.Name
+					}
+				}
 			}
 		case *ast.DeferStmt:
 			if fl, ok := x.Call.Fun.(*ast.FuncLit); ok && saves {
 				for _, s := range fl.Body.List {
-					if as, ok := s.(*ast.AssignStmt); ok && len(as.Lhs) == 3 && isStateSel(as.Lhs[0]) && isStateSel(as.Lhs[1]) && isStateSel(as.Lhs[2]) {
-						restores = true
+					if as, ok := s.(*ast.AssignStmt); ok && len(as.Lhs) == 3 && len(as.Rhs) == 3 && isStateSel(as.Lhs[0]) && isStateSel(as.Lhs[1]) && isStateSel(as.Lhs[2]) {
+						restores = len(savedIn) == 3
+						for k := 0; k < 3; k++ {
+							id, ok := as.Rhs[k].(*ast.Ident)
+							if !ok || savedIn[as.Lhs[k].(*ast.SelectorExpr).Sel.Name] != id.Name {
+								restores = false
+							}
+						}
 					}
 				}
 			}
@@ -65,9 +78,31 @@ func genNarrowFacts() {
 		})
 		return true
 	})
+	// the restore closures of the condition (`zaoriks`, one per narrowing step) are deferred ONE BY ONE, i.e. they run last-in first-out
+	lifo := false
+	var condRestores string
+	for _, st := range ev.Body.List {
+		if as, ok := st.(*ast.AssignStmt); ok && len(as.Rhs) == 1 && len(as.Lhs) >= 1 {
+			if c, ok := as.Rhs[0].(*ast.CallExpr); ok && strings.HasSuffix(exprString(c.Fun), "getBackupContext") {
+				if id, ok := as.Lhs[0].(*ast.Ident); ok {
+					condRestores = id.Name
+				}
+			}
+		}
+		if r, ok := st.(*ast.RangeStmt); ok && condRestores != "" {
+			if id, ok := r.X.(*ast.Ident); ok && id.Name == condRestores && len(r.Body.List) == 1 {
+				if d, ok := r.Body.List[0].(*ast.DeferStmt); ok {
+					if v, ok := r.Value.(*ast.Ident); ok && exprString(d.Call.Fun) == v.Name {
+						lifo = true
+					}
+				}
+			}
+		}
+	}
 	b := "namespace RubyTi.Gen\n\n/-- IfUnless.Evaluation saves originalTs/narrowTs/ifNarrowTs on entry and restores them in a deferred function -/\n"
 	b += "def ifUnlessSavesState : Bool := " + leanBool(saves && restores) + "\n\n"
-	b += "/-- the restore closures of an elsif condition are deferred -/\ndef elsifDefersRestores : Bool := " + leanBool(elsifDefers) + "\n\nend RubyTi.Gen\n"
+	b += "/-- the restore closures of an elsif condition are deferred -/\ndef elsifDefersRestores : Bool := " + leanBool(elsifDefers) + "\n\n"
+	b += "/-- the restore closures of the condition are deferred one by one: they run in reverse order of the narrowing steps -/\ndef conditionRestoresLIFO : Bool := " + leanBool(lifo) + "\n\nend RubyTi.Gen\n"
 	writeGen("NarrowFacts", b)
 }
 
